@@ -37,22 +37,83 @@ type intrinsicFn func(c *Ctx, st *State, in ssa.Instruction, args []Value) Value
 var intrinsics = map[string]intrinsicFn{}
 
 func init() {
-	// unicode.Is(unicode.Cf, r) in tcell's cellWidth on a CONCRETE rune (evaluation rule): answered by the unicode
-	// package linked into the verifier - the same standard library the library is built with.  Symbolic runes go
-	// through the assumed contract (spec/trusted/std.spec).
-	intrinsics["unicode.Is"] = func(c *Ctx, st *State, in ssa.Instruction, args []Value) Value {
-		if in == nil || in.Parent() == nil || in.Parent().Name() != "cellWidth" || len(args) != 2 {
-			return notIntrinsic{}
+	// unicode.Is(table, r) / unicode.In(r, tables...) on a CONCRETE rune (evaluation rule): answered by the unicode
+	// package linked into the verifier - the same standard library the library is built with - for the table(s) the
+	// CODE passes (identified by the name of the package variable, e.g. unicode.Cf).  Symbolic runes go through the
+	// assumed contracts (spec/trusted/std.spec).
+	tableOf := func(v Value) *unicode.RangeTable {
+		p, ok := v.(PtrV)
+		if !ok || p.Sym == nil {
+			return nil
 		}
-		t, ok := args[1].(*Term)
+		name := p.Sym.Name
+		if k := strings.Index(name, "global."); k >= 0 {
+			name = name[k+7:]
+			if d := strings.Index(name, "."); d >= 0 {
+				name = name[:d]
+			}
+			if t, ok := unicode.Categories[name]; ok {
+				return t
+			}
+			if t, ok := unicode.Properties[name]; ok {
+				return t
+			}
+			if t, ok := unicode.Scripts[name]; ok {
+				return t
+			}
+		}
+		return nil
+	}
+	concRune := func(v Value) (rune, bool, bool) {
+		t, ok := v.(*Term)
 		if !ok || !isNum(t) {
-			return notIntrinsic{}
+			return 0, false, false
 		}
 		r := bvSigned(t.Val, 32).Int64()
 		if r < 0 || r > 0x10FFFF {
+			return 0, true, false
+		}
+		return rune(r), true, true
+	}
+	intrinsics["unicode.Is"] = func(c *Ctx, st *State, in ssa.Instruction, args []Value) Value {
+		if len(args) != 2 {
+			return notIntrinsic{}
+		}
+		r, conc, valid := concRune(args[1])
+		tab := tableOf(args[0])
+		if !conc || tab == nil {
+			return notIntrinsic{}
+		}
+		if !valid {
 			return False()
 		}
-		return BoolT(unicode.Is(unicode.Cf, rune(r)))
+		return BoolT(unicode.Is(tab, r))
+	}
+	intrinsics["unicode.In"] = func(c *Ctx, st *State, in ssa.Instruction, args []Value) Value {
+		if len(args) != 2 {
+			return notIntrinsic{}
+		}
+		r, conc, valid := concRune(args[0])
+		sl, ok := args[1].(SliceV)
+		if !conc || !ok || sl.Heap || sl.Obj == nil {
+			return notIntrinsic{}
+		}
+		arr, ok := c.mem(st, sl.Obj).(*ArrayV)
+		if !ok {
+			return notIntrinsic{}
+		}
+		var tabs []*unicode.RangeTable
+		for k := sl.COff; k < sl.COff+sl.CLen && k < len(arr.Elems); k++ {
+			t := tableOf(arr.Elems[k])
+			if t == nil {
+				return notIntrinsic{}
+			}
+			tabs = append(tabs, t)
+		}
+		if !valid {
+			return False()
+		}
+		return BoolT(unicode.In(r, tabs...))
 	}
 	// go-runewidth's RuneWidth on a CONCRETE printable ASCII rune is 1 (evaluation rule only; every other argument goes
 	// through the assumed contract or the dependency's source)
@@ -66,6 +127,11 @@ func init() {
 		}
 		r := bvSigned(t.Val, 32).Int64()
 		if r < 0x20 || r > 0x7e {
+			if c.InlineAll && in != nil && in.Parent() != nil && in.Parent().Name() == "cellWidth" {
+				// evaluation of tcell's cellWidth on a non-ASCII rune: what go-runewidth says is evaluated separately
+				// from the dependency's source (C09); here it is an unknown width
+				return Fresh("runewidth.of", c.idx(0).Sort)
+			}
 			return notIntrinsic{}
 		}
 		return c.idx(1)
